@@ -7,8 +7,8 @@
 
 namespace {
 
-enum Op { T_Bool, T_BoolTree, T_BoolShared, T_BoolD, T_Offset, T_OffsetTree, T_Rect, T_RectLines, T_Mink, T_Utils, T_Inflate, T_NOPS };
-const char* opName(int op) { static const char* n[] = {"Clipper64", "Clipper64-tree", "Clipper64-shared-container", "ClipperD", "ClipperOffset", "ClipperOffset-tree", "RectClip", "RectClipLines", "Minkowski", "utilities", "InflatePaths"}; return n[op]; }
+enum Op { T_Bool, T_BoolTree, T_BoolShared, T_BoolD, T_Offset, T_OffsetTree, T_Rect, T_RectLines, T_Mink, T_Utils, T_Inflate, T_OffsetCb, T_DFuncs, T_BoolDTree, T_NOPS };
+const char* opName(int op) { static const char* n[] = {"Clipper64", "Clipper64-tree", "Clipper64-shared-container", "ClipperD", "ClipperOffset", "ClipperOffset-tree", "RectClip", "RectClipLines", "Minkowski", "utilities", "InflatePaths", "ClipperOffset-delta-callback", "PathsD-functions", "ClipperD-tree"}; return n[op]; }
 
 void digestPaths(const Paths64& pp, std::string& out) { for (auto& p : pp) { out += '['; for (auto& q : p) { out += std::to_string(q.x); out += ','; out += std::to_string(q.y); out += ' '; } out += ']'; } out += '|'; }
 void digestPathsD(const PathsD& pp, std::string& out) { for (auto& p : pp) { out += '['; for (auto& q : p) { out += hexfloat(q.x); out += ','; out += hexfloat(q.y); out += ' '; } out += ']'; } out += '|'; }
@@ -58,6 +58,34 @@ std::string runOp(const Case& o, const ReuseableDataContainer64* shared) {
     case T_Utils: {
       for (auto& p : a) { digestPaths(Paths64{TrimCollinear(p, false), SimplifyPath(p, 2.0, true), RamerDouglasPeucker(p, 2.0)}, d); d += std::to_string(Area(p)); d += PointInPolygon(Point64(o.I("l"), o.I("t")), p) == PointInPolygonResult::IsInside ? 'i' : 'o'; }
       digestPaths(Paths64{Ellipse(Point64(0, 0), 20.0 + std::fabs(o.D("delta")), 30.0 + (double)(o.I("jt") & 3))}, d);
+      break;
+    }
+    case T_OffsetCb: {
+      // variable offsetting: a pure callback (depends only on its arguments and this job's delta)
+      ClipperOffset co(o.D("ml", 2.0), o.D("at", 0.0));
+      co.AddPaths(a, (JoinType)(o.I("jt") & 3), (EndType)(o.I("et") % 5));
+      double dl = o.D("delta");
+      co.SetDeltaCallback([dl](const Path64& path, const PathD&, size_t curr, size_t) { return dl * (1.0 + 0.25 * (double)(curr % 3)) + (double)(path.size() % 2); });
+      Paths64 s; co.Execute(1.0, s); digestPaths(s, d);
+      break;
+    }
+    case T_DFuncs: {
+      int ec = 0;
+      PathsD ad = ScalePaths<double, int64_t>(a, 0.01, ec), bd = ScalePaths<double, int64_t>(b, 0.01, ec);
+      digestPathsD(InflatePaths(ad, o.D("delta") * 0.01, (JoinType)(o.I("jt") & 3), (EndType)(o.I("et") % 5), o.D("ml", 2.0), 2, o.D("at", 0.0)), d);
+      RectD r(o.I("l") * 0.01, o.I("t") * 0.01, o.I("r") * 0.01, o.I("b") * 0.01);
+      digestPathsD(RectClip(r, ad, 2), d); digestPathsD(RectClipLines(r, ad, 2), d);
+      if (!ad.empty() && !bd.empty()) { digestPathsD(MinkowskiSum(ad[0], bd[0], o.I("pc") != 0, 2), d); digestPathsD(MinkowskiDiff(ad[0], bd[0], o.I("pc") != 0, 2), d); }
+      digestPathsD(SimplifyPaths(ad, 0.05, true), d);
+      digestPathsD(BooleanOp(ct, fr, ad, bd, 3), d);
+      break;
+    }
+    case T_BoolDTree: {
+      ClipperD c((int)(o.I("jt") & 3));
+      int ec = 0;
+      c.AddSubject(ScalePaths<double, int64_t>(a, 0.01, ec)); c.AddClip(ScalePaths<double, int64_t>(b, 0.01, ec));
+      PolyTreeD t; PathsD so; c.Execute(ct, fr, t, so);
+      digestPathsD(PolyTreeToPathsD(t), d); d += std::to_string(t.Area()); digestPathsD(so, d);
       break;
     }
     default: digestPaths(InflatePaths(a, o.D("delta"), (JoinType)(o.I("jt") & 3), (EndType)(o.I("et") % 5)), d);
